@@ -8,8 +8,9 @@
   oracle only (see DESIGN.md).
 -/
 import DiplomatModel.Lemmas.JsLayout
+import DiplomatModel.Lemmas.Memory
 namespace DiplomatModel.Props.C08
-open DiplomatModel.JsLayout
+open DiplomatModel.JsLayout DiplomatModel.Memory
 
 /-- offsets of the fields of a non-empty struct are the plain running-offset recursion -/
 theorem offsets_eq (fs : List (Nat × Nat × SC)) (hne : fs ≠ []) :
@@ -173,5 +174,22 @@ example : jsFrags [.struct [.scalar 1 1, .scalar 4 4], .scalar 2 2, .opt (.scala
             "/* [1 x i16] padding */",
             "diplomatRuntime.writeOptionToArrayBuffer(arrayBuffer, offset + 10, this.#f2, 2, 2,",
             "diplomatRuntime.readOption(wasm, f2Deref, 2,"] := by decide
+
+/-! ### bytes: what is written field by field is what is read back -/
+
+/-- **Write / read round trip over the computed layout.** Take any non-empty struct (positive alignments), any
+    memory, and for every field a byte string of the field's size.  Writing each field's bytes at the offset
+    `struct_field_info` computes (what `_writeToArrayBuffer` does with `offset + N`) and then reading each field
+    back at that offset over its size (what `_fromFFI` does with `ptr + N`) returns exactly the bytes written for
+    that field: later fields never overwrite earlier ones, because the placement is repr(C) (`layout_is_reprC`). -/
+theorem write_read_roundtrip (fs : List (Nat × Nat × SC)) (hne : fs ≠ []) (hpos : ∀ f ∈ fs, 0 < f.2.1)
+    (vals : List (List Nat)) (hl : vals.length = fs.length)
+    (hs : ∀ i (h1 : i < fs.length) (h2 : i < vals.length), (vals[i]'h2).length = (fs[i]'h1).1) (m : Mem) :
+    ∀ f ∈ ((fieldInfoOf fs).fields.map (·.offset)).zip vals,
+      readAt (writeFields m (((fieldInfoOf fs).fields.map (·.offset)).zip vals)) f.1 f.2.length = f.2 := by
+  have hg := layout_is_reprC fs hne hpos
+  exact read_after_writeFields m _ 0 (good_ordered fs _ vals 0 hg hl hs)
+
+example : readAt (writeFields (fun _ => 0xAA) [(0, [1]), (4, [2, 3, 4, 5]), (8, [6, 7])]) 4 4 = [2, 3, 4, 5] := by decide
 
 end DiplomatModel.Props.C08
